@@ -12,7 +12,7 @@ From Coq Require Import Reals QArith ZArith List Bool.
 From Bignums Require Import BigZ.
 From Coquelicot Require Import Coquelicot.
 From SpdVerif Require Import Base.NumOps Gen.Integration Model.Quadrature.
-From SpdVerif Require Import Proofs.C12_base Proofs.C12_simpson Proofs.C12_rule Proofs.C12_simpson2d Proofs.C12_adaptive Proofs.C12_cert.
+From SpdVerif Require Import Proofs.C12_base Proofs.C12_simpson Proofs.C12_rule Proofs.C12_simpson2d Proofs.C12_adaptive Proofs.C12_cert Proofs.C12_expi.
 Import ListNotations.
 Local Open Scope R_scope.
 
@@ -50,6 +50,18 @@ Proof. exact simpson_linear. Qed.
 Theorem C12_simpson_calls : forall (f : R -> C) (a b : R) divs, simpson_accepts divs = true ->
   simpson_calls Rops f (fun _ => 1%nat) a b divs = Z.to_nat (simpson_norm divs + 1).
 Proof. exact simpson_calls_count. Qed.
+
+(* smooth oscillatory integrands: the textbook bound (b-a) h^4 max|f(4)|/180 for f = amp*exp(ikx), h = (b-a)/n,
+   every interval, every k <> 0, every complex amplitude, every accepted divs; [expi_int] is the Riemann integral *)
+Theorem C12_simpson_expi_bound : forall divs (a b k : R) (amp : C), simpson_accepts divs = true -> k <> 0 ->
+  Cmod (Cminus (simpson Rops (fun x => Cmult amp (expi k x)) a b divs) (Cmult amp (expi_int k a b)))
+    <= Cmod amp * (Rabs (b - a) * Rabs ((b - a) / IZR (simpson_norm divs)) ^ 4 * Rabs k ^ 4 / 180).
+Proof. exact simpson_expi_bound. Qed.
+
+Theorem C12_expi_integral : forall k a b : R, k <> 0 ->
+  is_RInt (fun x => fst (expi k x)) a b (fst (expi_int k a b)) /\
+  is_RInt (fun x => snd (expi k x)) a b (snd (expi_int k a b)).
+Proof. exact expi_int_is_RInt. Qed.
 
 (* ---- composite Simpson, 2-D *)
 Theorem C12_simpson2d_is_tensor : forall (f : R -> R -> C) (ax bx ay by_ : R) divs, (0 < simpson2d_norm divs)%Z ->
@@ -233,6 +245,8 @@ Print Assumptions C12_simpson_exact.
 Print Assumptions C12_simpson_reverse.
 Print Assumptions C12_simpson_linear.
 Print Assumptions C12_simpson_calls.
+Print Assumptions C12_simpson_expi_bound.
+Print Assumptions C12_expi_integral.
 Print Assumptions C12_simpson2d_is_tensor.
 Print Assumptions C12_simpson2d_separable.
 Print Assumptions C12_simpson2d_exact_bicubic.
